@@ -444,6 +444,57 @@ def _escapes(loop: ast.For, names, root) -> bool:
     return bool(found)
 
 
+def try_lookup_to_get(stmts: list[ast.stmt]) -> list[ast.stmt]:
+    """try: t = X[k]  except KeyError: t = D         ->   t = X.get(k, D)          (Mapping.get is defined as exactly this)
+       try: t = X[k]  except KeyError: return D ; return t    ->   return X.get(k, D)
+       try: return X[k]  except KeyError: return D            ->   return X.get(k, D)
+    D a constant; X.get(k, None) is written X.get(k)"""
+    def get(x, k, d):
+        args = [k] if isinstance(d, ast.Constant) and d.value is None else [k, d]
+        return ast.Call(func=ast.Attribute(value=x, attr="get", ctx=ast.Load()), args=args, keywords=[])
+
+    def only_keyerror(t):
+        return len(t.handlers) == 1 and t.handlers[0].type is not None and u(t.handlers[0].type) == "KeyError" and not t.orelse and not t.finalbody
+
+    out = []
+    stmts = list(stmts)
+    i = 0
+    while i < len(stmts):
+        s_ = stmts[i]
+        for fld in ("body", "orelse", "finalbody"):
+            b = getattr(s_, fld, None)
+            if isinstance(b, list) and b and isinstance(b[0], ast.stmt) and not isinstance(s_, (ast.FunctionDef, ast.AsyncFunctionDef, ast.ClassDef)):
+                setattr(s_, fld, try_lookup_to_get(b))
+        if isinstance(s_, ast.Try):
+            for h in s_.handlers:
+                h.body = try_lookup_to_get(h.body)
+        if isinstance(s_, ast.Try) and only_keyerror(s_) and len(s_.body) == 1 and len(s_.handlers[0].body) == 1:
+            b0, h0 = s_.body[0], s_.handlers[0].body[0]
+            sub = b0.value if isinstance(b0, (ast.Assign, ast.Return)) else None
+            if isinstance(sub, ast.Subscript) and is_reference(sub.value) and is_pure(sub.slice) and not isinstance(sub.slice, ast.Slice):
+                new = None
+                step = 1
+                if isinstance(b0, ast.Return) and isinstance(h0, ast.Return) and isinstance(h0.value or ast.Constant(None), ast.Constant):
+                    new = ast.Return(value=get(sub.value, sub.slice, h0.value or ast.Constant(None)))
+                elif isinstance(b0, ast.Assign) and len(b0.targets) == 1 and isinstance(b0.targets[0], ast.Name):
+                    t = b0.targets[0].id
+                    if isinstance(h0, ast.Assign) and len(h0.targets) == 1 and isinstance(h0.targets[0], ast.Name) and h0.targets[0].id == t and isinstance(h0.value, ast.Constant):
+                        new = ast.Assign(targets=[ast.Name(id=t, ctx=ast.Store())], value=get(sub.value, sub.slice, h0.value))
+                    elif isinstance(h0, ast.Return) and isinstance(h0.value or ast.Constant(None), ast.Constant) and i + 1 < len(stmts) \
+                            and isinstance(stmts[i + 1], ast.Return) and isinstance(stmts[i + 1].value, ast.Name) and stmts[i + 1].value.id == t:
+                        new = ast.Return(value=get(sub.value, sub.slice, h0.value or ast.Constant(None)))
+                        step = 2
+                if new is not None:
+                    ast.copy_location(new, s_)
+                    ast.fix_missing_locations(new)
+                    out.append(new)
+                    i += step
+                    continue
+        out.append(s_)
+        i += 1
+    return out
+
+
 def default_then_override(stmts: list[ast.stmt]) -> list[ast.stmt]:
     """x = A; if c: x = B      ->      if c: x = B else: x = A        (A pure, evaluated only where it is kept; c reads x as A)"""
     out = []
